@@ -303,6 +303,29 @@ def evaluate(names, pick, imgs, dsets, mode, full):
     return out
 
 
+def reuse_problems(kinds_a, kinds_b, pick, imgs):
+    """check pipeline A then pipeline B on one real machine through check_pipeline_section -> [(clause, message)]"""
+    from pandora.check_configuration import check_pipeline_section
+    machine = PandoraMachine()
+    names_a, names_b = P.names_for(kinds_a), P.names_for(kinds_b)
+    out = []
+    try:
+        check_pipeline_section({"pipeline": copy.deepcopy(P.pipeline_for(names_a, pick, real=True))}, imgs[0], imgs[1], machine)
+        user_b = {"pipeline": copy.deepcopy(P.pipeline_for(names_b, pick, real=True))}
+        got = check_pipeline_section(copy.deepcopy(user_b), imgs[0], imgs[1], machine)
+    except Exception as exc:  # pylint: disable=broad-except
+        return [("C01.reuse.accept", "documented pipelines %s then %s on one machine: %s %s"
+                 % (names_a, names_b, type(exc).__name__, str(exc)[:120]))]
+    if list(got["pipeline"]) != list(names_b):
+        out.append(("C01.reuse.order", "after checking %s, the accepted pipeline %s came back as %s"
+                    % (names_a, names_b, list(got["pipeline"]))))
+    for n in names_b:
+        for k, v in user_b["pipeline"][n].items():
+            if n in got["pipeline"] and got["pipeline"][n].get(k, "<absent>") != v:
+                out.append(("C01.reuse.values", "step %s key %s: %r became %r" % (n, k, v, got["pipeline"][n].get(k, "<absent>"))))
+    return out
+
+
 def suffix_class(names):
     """which step kinds occur only under suffixed names (no plain '<kind>' key in the pipeline)"""
     kinds = [P.kind(n) for n in names]
@@ -439,8 +462,25 @@ def run(tier, seed):
                 real_suffixed(kinds, only, int(rng.integers(0, 4)), part="real-suffix-sample")
                 n_sfx += 1
 
+        # G. one machine checked with one pipeline and then with ANOTHER one, through the public entry
+        #    check_configuration.check_pipeline_section: the second accepted pipeline comes back as written (same steps, same
+        #    order), whatever the machine checked before ("every check starts from a clean machine")
+        n_reuse = 0
+        short = [k for k in accepted if 2 <= len(k) <= 4]
+        pairs = [(short[i], short[j]) for i, j in zip(rng.integers(0, len(short), size=40 if tier != "smoke" else 6),
+                                                      rng.integers(0, len(short), size=40 if tier != "smoke" else 6))]
+        pairs += [((mc, dsp, flt), (mc, agg, dsp, flt)), ((mc, agg, dsp, flt), (mc, dsp)), ((mc, dsp, val), (mc, cvc, dsp, ref, val))]
+        for ka, kb in pairs:
+            problems = reuse_problems(ka, kb, n_reuse % 4, imgs)
+            rec.case(key=("reuse", tuple(ka), tuple(kb)), nontrivial=True)
+            for clause, msg in problems:
+                rec.violation(clause=clause, witness_class="machine-reuse", message=msg,
+                              witness={"part": "reuse", "first": list(ka), "second": list(kb), "pick": n_reuse % 4, "clause": clause})
+            n_reuse += 1
+
     return rec.result(
-        bound="all %d step-kind sequences of length <= %d over the 10 kinds (valid parameters, 4 rotating parameter "
+        bound="(G: %d pairs of documented pipelines checked one after the other on ONE machine through check_pipeline_section)  " % n_reuse
+              + "all %d step-kind sequences of length <= %d over the 10 kinds (valid parameters, 4 rotating parameter "
               "variants per kind, 24x32 crop of the cones pair, interval [-3,1]); for each of the %d documented paths: "
               "check,check,run,run,check on one machine with recording stubs, plus '.suffix' variants (each first "
               "occurrence alone, then all); %d random suffixed non-paths; %d documented paths (+ one 11-step pipeline "
@@ -470,6 +510,9 @@ def replay(witness):
         imgs, dsets = P.metadata(inp), P.datasets(inp)
         if witness.get("part") == "table":
             return table_reproduces(witness, imgs)
+        if witness.get("part") == "reuse":
+            return any(c == witness["clause"] for c, _ in reuse_problems(tuple(witness["first"]), tuple(witness["second"]),
+                                                                         int(witness["pick"]), imgs))
         problems = evaluate(list(witness["names"]), int(witness["pick"]), imgs, dsets, witness["mode"],
                             bool(witness["full"]))
         return any(c == witness["clause"] for c, _, _ in problems)
